@@ -663,7 +663,7 @@ def run(ctx: Ctx):
         j = ctx.replay_obj
         cases, origins, ncorpus = [{"pre": j["pre"], "prog": j["prog"]}], ["replay"], 1
     else:
-        n = 9 if ctx.quick else 100      # 9 (was 12): the corpus grew by removals.json, transfer.json, import.json; wall time unchanged
+        n = 8 if ctx.quick else 100      # 8 (was 12): the corpus grew from 10 to 15 programs (removals, transfer, import, seed-4 case); wall time unchanged
         for k in range(n):
             cases.append(gen_case(ctx.rng, additive_only=(k % 4 == 0)))
             origins.append(f"seed{ctx.seed}/{k}")
